@@ -78,7 +78,11 @@ pub fn run(thorough: bool) {
     let mut outcomes: BTreeSet<String> = BTreeSet::new();
     let a = arr_docs();
     let sc3 = single_scenario("single-first-commit", vec![a[0].clone(), a[3].clone(), a[4].clone(), a[8].clone()], if thorough { 5 } else { 4 }, &[Op::Reopen(0), Op::Unstage(0), Op::ObjPut(0, 1), Op::StageRt(0)]);
-    for sc in [sc, sc2, sc3] {
+    // a chain of two stored edit scripts above a fork, a concurrent branch on the other replica, and `read` as an
+    // operation: a cold reopen + read rebuilds the whole chain in one call (what it leaves in the reconstruction
+    // cache depends on the capacity) before the concurrent branch is melded and read
+    let sc4 = two_patch_scenario("pair-two-patches-cold", if thorough { 4 } else { 3 }, &[Op::Read(0), Op::Read(1)]);
+    for sc in [sc, sc2, sc3, sc4] {
         if rep.violations.iter().any(|v| v.signature.contains("does-not-return")) {
             break;
         }
